@@ -197,3 +197,26 @@ package db
 //@   ensures [empty] len(rec) == 0 ==> err != nil
 //@   ensures [ok] err == nil ==> isInt64(rec[len(rec)-1]) && r0 == asInt64(rec[len(rec)-1]) && r1 == rec[:len(rec)-1]
 //@   ensures [accept] len(rec) > 0 && isInt64(rec[len(rec)-1]) ==> err == nil
+
+// ---------------------------------------------------------------------------------------
+// Database header (file format section 1.3). hdr_ok is the acceptance predicate of property C15:
+// magic string; page size a power of two 512..32768 or the value 1 (= 65536); read version 1
+// (2 = WAL is refused); reserved space 0; payload fractions 64/32/32; schema format 2, 3 or 4;
+// text encoding 1 (UTF-8); the 20 expansion bytes zero. All other bytes (write version, change
+// counter, sizes, free-list, cookie, cache size, vacuum fields, user version, application id,
+// version stamps) are unconstrained.
+//
+//@ smt header
+//@ (define-fun hdr_ok ((a (Array (_ BitVec 64) (_ BitVec 8))) (o (_ BitVec 64)) (n (_ BitVec 64))) Bool (and (bvsge n #x0000000000000064) (= (byte_at a o #x0000000000000000) #x53) (= (byte_at a o #x0000000000000001) #x51) (= (byte_at a o #x0000000000000002) #x4c) (= (byte_at a o #x0000000000000003) #x69) (= (byte_at a o #x0000000000000004) #x74) (= (byte_at a o #x0000000000000005) #x65) (= (byte_at a o #x0000000000000006) #x20) (= (byte_at a o #x0000000000000007) #x66) (= (byte_at a o #x0000000000000008) #x6f) (= (byte_at a o #x0000000000000009) #x72) (= (byte_at a o #x000000000000000a) #x6d) (= (byte_at a o #x000000000000000b) #x61) (= (byte_at a o #x000000000000000c) #x74) (= (byte_at a o #x000000000000000d) #x20) (= (byte_at a o #x000000000000000e) #x33) (= (byte_at a o #x000000000000000f) #x00) (or (= (be16 a (bvadd o #x0000000000000010)) #x0001) (= (be16 a (bvadd o #x0000000000000010)) #x0200) (= (be16 a (bvadd o #x0000000000000010)) #x0400) (= (be16 a (bvadd o #x0000000000000010)) #x0800) (= (be16 a (bvadd o #x0000000000000010)) #x1000) (= (be16 a (bvadd o #x0000000000000010)) #x2000) (= (be16 a (bvadd o #x0000000000000010)) #x4000) (= (be16 a (bvadd o #x0000000000000010)) #x8000)) (= (byte_at a o #x0000000000000013) #x01) (= (byte_at a o #x0000000000000014) #x00) (= (byte_at a o #x0000000000000015) #x40) (= (byte_at a o #x0000000000000016) #x20) (= (byte_at a o #x0000000000000017) #x20) (or (= (be32 a (bvadd o #x000000000000002c)) #x00000002) (= (be32 a (bvadd o #x000000000000002c)) #x00000003) (= (be32 a (bvadd o #x000000000000002c)) #x00000004)) (= (be32 a (bvadd o #x0000000000000038)) #x00000001) (= (byte_at a o #x0000000000000048) #x00) (= (byte_at a o #x0000000000000049) #x00) (= (byte_at a o #x000000000000004a) #x00) (= (byte_at a o #x000000000000004b) #x00) (= (byte_at a o #x000000000000004c) #x00) (= (byte_at a o #x000000000000004d) #x00) (= (byte_at a o #x000000000000004e) #x00) (= (byte_at a o #x000000000000004f) #x00) (= (byte_at a o #x0000000000000050) #x00) (= (byte_at a o #x0000000000000051) #x00) (= (byte_at a o #x0000000000000052) #x00) (= (byte_at a o #x0000000000000053) #x00) (= (byte_at a o #x0000000000000054) #x00) (= (byte_at a o #x0000000000000055) #x00) (= (byte_at a o #x0000000000000056) #x00) (= (byte_at a o #x0000000000000057) #x00) (= (byte_at a o #x0000000000000058) #x00) (= (byte_at a o #x0000000000000059) #x00) (= (byte_at a o #x000000000000005a) #x00) (= (byte_at a o #x000000000000005b) #x00)))
+//@ (define-fun hdr_pagesize ((a (Array (_ BitVec 64) (_ BitVec 8))) (o (_ BitVec 64))) (_ BitVec 64) (ite (= (be16 a (bvadd o #x0000000000000010)) #x0001) #x0000000000010000 ((_ zero_extend 48) (be16 a (bvadd o #x0000000000000010)))))
+
+//@ func db.parseHeader
+//@   props C15 C08 C05
+//@   pure
+//@   ensures [sound] err == nil ==> hdr_ok(mem(b), off(b), len(b))
+//@   ensures [complete] hdr_ok(mem(b), off(b), len(b)) ==> err == nil
+//@   ensures [pagesize] err == nil ==> r0.PageSize == hdr_pagesize(mem(b), off(b)) && legal_ps(r0.PageSize)
+//@   ensures [counters] err == nil ==> r0.ChangeCounter == be32(mem(b), off(b) + 24) && r0.SchemaCookie == be32(mem(b), off(b) + 40)
+//@   loop 1 invariant 0 <= $i && $i <= 20
+//@   loop 1 invariant forall p int :: 72 <= p && p < 72 + $i ==> byte_at(mem(b), off(b), p) == 0
+//@   loop 1 decreases 20 - $i
